@@ -231,8 +231,12 @@ CLAIMED = {
              "succeeds, inputs/outputs are exactly the declared ports and in every consistent valuation each assigned net "
              "has the value Verilog semantics gives its right-hand side), `ports_checked` (every disagreement between port "
              "list and declarations is an error), `lex_ws_irrelevant`, `tables_grammar/regex_module/primitive` (static tie). "
-             "Partial: primitive-gate instances and blackbox instances are proved only as part of the C03 round trip "
-             "(`CG.C03.roundtrip_*`), not for arbitrary statement order; lark's LALR tables and lexer versus the hand-written "
+             "`transform_struct_sem` (structural netlists — named primitive instances of any type and arity with net or "
+             "constant operands, repeated operands, assigns of a net or constant, named-port blackbox instances with "
+             "connected / unconnected / omitted pins, in ANY statement order: the parser succeeds, io = the declared ports, "
+             "every gate output and assigned net has its Verilog value in every consistent valuation, every instance is "
+             "registered with each pin attached to exactly the named net). Partial: expression operands inside instance "
+             "port lists are covered by correspondence and search only; lark's LALR tables and lexer versus the hand-written "
              "parser/lexer are tied by the differential run only.",
         note=TRUST + " `transform_assign_sem` assumes no declared net is named like a synthetic name (NoCapture): that the real "
              "parser mis-handles such names is known finding K8a-c; `LexConsts` restricts constants to those the lexer can "
